@@ -71,6 +71,8 @@ func parseCanon(e string) centry {
 		c.key = string(unhx(p[2]))
 		d := p[3]
 		switch {
+		case strings.HasPrefix(d, "Jd:"):
+			c.meta, c.opaque = "k", true
 		case strings.HasPrefix(d, "Jk:"), strings.HasPrefix(d, "Jb:"):
 			c.meta = d[1:2]
 			if d[3:] == "?" {
@@ -107,7 +109,20 @@ func wireType(t string) string {
 func monitor(c hxlib.Case, outs []string) (vs []hxlib.Violation) {
 	if len(c.Lines) > 0 && strings.HasPrefix(c.Lines[0], "conc ") {
 		if strings.HasPrefix(outs[0], "rerun-violation") || strings.HasPrefix(outs[0], "CRASH") || strings.HasPrefix(outs[0], "WEDGE") || strings.HasPrefix(outs[0], "HANG") {
-			vs = append(vs, hxlib.Violation{Sig: "C13:scenario:" + strings.Fields(outs[0])[0], What: outs[0], Lines: c.Lines[:1], Output: outs[:1]})
+			// signature: failure class + scenario family (the family names the racing parties)
+			fam := "replay"
+			if strings.HasPrefix(c.Kind, "conc:") {
+				fam = strings.TrimPrefix(c.Kind, "conc:")
+			}
+			w := strings.ToLower(strings.Fields(outs[0])[0])
+			if w == "crash" {
+				for _, x := range strings.Fields(outs[0]) {
+					if strings.HasPrefix(x, "site=") {
+						fam = strings.TrimPrefix(x, "site=") + ":" + fam
+					}
+				}
+			}
+			vs = append(vs, hxlib.Violation{Sig: "C13:" + w + ":scenario:" + fam, What: "the process crashed / wedged / broke the protocol in a concurrent scenario: " + outs[0], Lines: c.Lines[:1], Output: outs[:1]})
 		}
 		return append(vs, judgeTrace(c.Lines[1:], c.Lines[:1])...)
 	}
@@ -312,7 +327,9 @@ func judgeTrace(lines []string, head []string) (vs []hxlib.Violation) {
 			}
 			if r.Type == "ok" || r.Type == "upd" || r.Type == "new" {
 				cd := canonData(r.Key, r.Data, false)
-				if !strings.HasPrefix(cd, "Jk:") {
+				if strings.HasPrefix(cd, "Jd:") {
+					// deleted while in flight: says so itself
+				} else if !strings.HasPrefix(cd, "Jk:") {
 					add(i, "C13:readback-meta:trace", fmt.Sprintf("record %q returned as %q: no _meta section naming its key", r.Key, r.Data))
 				} else if ws := writes[r.Key]; len(ws) > 0 && !opaque[r.Key] {
 					body := unhx(cd[3:])
@@ -330,6 +347,16 @@ func judgeTrace(lines []string, head []string) (vs []hxlib.Violation) {
 		case "quiet":
 			if !acc.quiet() {
 				add(i, "C13:incomplete:trace", "at a quiet point a one-shot request or query has not received the replies its protocol prescribes")
+				return vs
+			}
+		case "seed":
+			if len(f) == 4 {
+				k := string(unhx(f[2]))
+				writes[k] = append(writes[k], unhx(f[3]))
+			}
+		case "down":
+			if !acc.down() {
+				add(i, "C13:incomplete:trace-down", "at connection teardown a one-shot request had not been answered although its handler returned")
 				return vs
 			}
 		case "final":
